@@ -89,6 +89,11 @@ class SpecialAttributesDict(dict):
 
         key = key.lower()
 
+        # Same rule as AdvancedTag.setAttribute ( late import: Tags imports this module )
+        from .Tags import isValidAttributeName
+        if not isValidAttributeName(key):
+            raise KeyError('Attribute name "%s" is not valid. Must start with alpha character, and contain only alphanumeric or "-" or "_".' %(key, ))
+
         tag = self.tag
 
         if key == 'style':
